@@ -73,13 +73,13 @@ C["C08"] = dict(assumptions=["peer replaced by a recorder"], harnesses=[
 ])
 
 C["C07"] = dict(assumptions=["bencode decoder replaced by 'any decoded value'", "name and path component bytes are arbitrary ASCII (<0x80) of the stated lengths; invalid UTF-8 / 255-byte trimming not covered", "os.MkdirAll / os.OpenFile replaced by recorders (every path the storage would touch is captured)", "tar parser replaced by 'one header with an arbitrary name'"], harnesses=[
-    H("ZZPathsName", "internal/storage/filestorage", "real NewInfo + FileStorage.Open: arbitrary torrent name (<= 2 ASCII bytes), single-file or one file with a <=1-byte component: every path handed to MkdirAll/OpenFile stays under the data directory", T(80, 900), T(80, 900)),
-    H("ZZPathsComponents", "internal/storage/filestorage", "fixed name, <=2 files with one component of <=2 arbitrary ASCII bytes: confinement, separator replacement, two files never collide", T(80, 900), T(80, 900)),
-    H("ZZTarConfined", "torrent", "readData: arbitrary tar entry name (<=5 ASCII bytes): nothing created outside the destination directory", T(80, 900), T(80, 900)),
-    H("ZZPathsConfined2", "internal/storage/filestorage", "name <= 2 bytes, <=2 files x <=2 components x <=2 bytes", None, T(120, 7000, 32, 8)),
+    H("ZZPathsName", "internal/storage/filestorage", "real NewInfo + FileStorage.Open: arbitrary torrent name (<= 2 ASCII bytes), single-file or one file with a <=1-byte component: every path handed to MkdirAll/OpenFile stays under the data directory", T(80, 900), T(80, 900), replay="model"),
+    H("ZZPathsComponents", "internal/storage/filestorage", "fixed name, <=2 files with one component of <=2 arbitrary ASCII bytes: confinement, separator replacement, two files never collide", T(80, 900), T(80, 900), replay="model"),
+    H("ZZTarConfined", "torrent", "readData: arbitrary tar entry name (<=5 ASCII bytes): nothing created outside the destination directory", T(80, 900), T(80, 900), replay="model"),
+    H("ZZPathsConfined2", "internal/storage/filestorage", "name <= 2 bytes, <=2 files x <=2 components x <=2 bytes", None, T(120, 7000, 32, 8), replay="model"),
 ])
 C["C05"] = dict(assumptions=["os.OpenFile replaced by a recorder"], harnesses=[
-    H("ZZOpenSync", "internal/storage/filestorage", "every open of a data file carries O_SYNC|O_RDWR (existing-file path and create path)", T(20, 300), T(20, 300)),
+    H("ZZOpenSync", "internal/storage/filestorage", "every open of a data file carries O_SYNC|O_RDWR (existing-file path and create path)", T(20, 300), T(20, 300), replay="model"),
 ])
 
 C["C11"] = dict(assumptions=["net.Conn replaced by an in-memory connection (vrt.Conn)", "time.Ticker never fires (keep-alive timing outside the claim)", "extension messages (bencoded payload) not covered"], harnesses=[
@@ -90,15 +90,27 @@ C["C11"] = dict(assumptions=["net.Conn replaced by an in-memory connection (vrt.
     H("ZZHandshakeRejectsOtherProtocol", "internal/btconn", "any other first 20 bytes are refused", T(40, 300), T(40, 300)),
 ])
 C["C08"]["harnesses"] += [
-    H("ZZReaderTwo", "internal/peerconn/peerreader", "real PeerReader.Run on any unfragmented byte stream <= 11 bytes, any maxMsgSize: no panic, allocation <= max(maxMsgSize,16K), caps on request/piece/bitfield, up to 2 deliveries", T(80, 900), T(80, 900)),
-    H("ZZReaderOne", "internal/peerconn/peerreader", "any unfragmented stream <= 17 bytes (covers a full request frame), first delivery", T(80, 1800, 8, 6), None),
-    H("ZZReaderFirst", "internal/peerconn/peerreader", "any stream <= 18 bytes with none/one split/byte-by-byte fragmentation, first delivery", None, T(80, 3600, 32, 8)),
+    H("ZZReaderTwo", "internal/peerconn/peerreader", "real PeerReader.Run on any unfragmented byte stream <= 11 bytes, any maxMsgSize: no panic, allocation <= max(maxMsgSize,16K), caps on request/piece/bitfield, up to 2 deliveries", T(80, 900), T(80, 900), replay="model"),
+    H("ZZReaderOne", "internal/peerconn/peerreader", "any unfragmented stream <= 17 bytes (covers a full request frame), first delivery", T(80, 1800, 8, 6), None, replay="model"),
+    H("ZZReaderFirst", "internal/peerconn/peerreader", "any stream <= 18 bytes with none/one split/byte-by-byte fragmentation, first delivery", None, T(80, 3600, 32, 8), replay="model"),
 ]
 C["C08"]["assumptions"] += ["net.Conn replaced by an in-memory connection serving an arbitrary byte stream", "extension payload decoding (bencode, reflection) replaced by 'decodes or fails'"]
 
 C["C04"] = dict(assumptions=["torrent built by the real newTorrent; its event loop is not started: the harness calls the handlers the loop would call, one event at a time (single-threaded event loop)", "workers started with `go` are not run; their completions are symbolic events (allocation/verification results arbitrary); ghost workers honour Close()", "resume database, acceptor, external IP lookup replaced by recorders", "wall-clock clauses (stop within tracker timeout) outside the claim"], harnesses=[
-    H("ZZLifecycle4", "torrent", "every sequence of 4 lifecycle events (start, stop, verify, stop-announce done, allocation done, verification done with arbitrary results) from a freshly added 2-piece torrent with arbitrary resume bitfield: no panic/crash, status truthful (Seeding => all pieces; Stopped/Stopping => no peers, downloads, open files), completion flag == completion channel, no command dropped, verification never leaves the torrent transferring", T(30, 900, flags=["-nospawn"]), None),
-    H("ZZLifecycle6", "torrent", "same with 6 events", None, T(30, 3000, 16, 7, flags=["-nospawn"])),
+    H("ZZLifecycle4", "torrent", "every sequence of 4 lifecycle events (start, stop, verify, stop-announce done, allocation done, verification done with arbitrary results) from a freshly added 2-piece torrent with arbitrary resume bitfield: no panic/crash, status truthful (Seeding => all pieces; Stopped/Stopping => no peers, downloads, open files), completion flag == completion channel, no command dropped, verification never leaves the torrent transferring", T(30, 900, flags=["-nospawn"]), None, replay="model"),
+    H("ZZLifecycle6", "torrent", "same with 6 events", None, T(30, 3000, 16, 7, flags=["-nospawn"]), replay="model"),
+])
+
+C["C17"] = dict(assumptions=["the resource manager's run loop is the real goroutine; select with several ready cases forks one path per case"], harnesses=[
+    H("ZZRequestAnswered", "internal/resourcemanager", "3 operations (request 1..3 units with the requester's cancel channel open or already closed / release) on a manager with limit 0..3: every Request returns (no deadlock of the caller), allocated size within [0, limit], object count >= 0", T(80, 900, 4, 5), T(80, 900, 4, 5)),
+])
+C["C12"] = dict(assumptions=["marker bytes do not occur earlier in the stream (they are SHA-1 / RC4 output)", "net.Conn replaced by an in-memory connection"], harnesses=[
+    H("ZZReadSync8", "internal/mse", "readSync with an 8-byte marker after 0..6 bytes of padding, any scan limit, none/one split/byte-by-byte fragmentation: found iff the marker ends within the limit; consumes exactly up to the marker", T(80, 900), T(80, 900)),
+    H("ZZReadSync20", "internal/mse", "20-byte marker after 0..10 bytes of padding", None, T(120, 1800, 4, 4)),
+])
+
+C["C19"] = dict(assumptions=["torrent built by the real newTorrent and driven to Downloading through the real handlers; peer connected through the real startPeer with an in-memory connection", "messages sent to peers, DHT node additions and 'need more peers' signals are recorded (the peer writer, the DHT node and the announcer goroutines are not running)", "the decoded value of the private flag is the input (the three bencode decodings of parsePrivateField are outside the claim)"], harnesses=[
+    H("ZZPrivateNoLeak", "torrent", "private or public 2-piece torrent, every combination of PEXEnabled/DHTEnabled/DHT node present: extension handshake advertising ut_pex+ut_metadata, PEX message with an arbitrary address, DHT peer list, port message, magnet export, identity strings", T(30, 900, flags=["-nospawn"]), T(30, 900, flags=["-nospawn"]), replay="model"),
 ])
 
 for pid, spec in C.items():
